@@ -36,6 +36,7 @@ type Contract struct {
 	Results  []string
 	Requires []Clause
 	Ensures  []Clause
+	Traced   int      // > 0: every call site records (id, arguments, first result) in the caller's local ghosts opid/opcall
 	Panics   []Clause // the function ends in a panic (no normal return) exactly when one of these holds at entry
 	Modifies []CExpr
 	ModAll   bool
@@ -113,7 +114,7 @@ var clauseKeywords = map[string]bool{
 	"ghost": true, "spec": true, "global-invariant": true, "func": true, "extern": true, "iface": true,
 	"requires": true, "ensures": true, "modifies": true, "pure": true, "trusted": true, "inline": true,
 	"noinline": true, "loop": true, "invariant": true, "decreases": true, "lemma": true, "assume": true,
-	"show": true, "props": true, "loopmodifies": true, "split": true, "pureif": true, "immutable": true, "protects": true, "elemptr": true, "step": true, "panics": true, "allow-global-write": true,
+	"show": true, "props": true, "loopmodifies": true, "split": true, "pureif": true, "immutable": true, "protects": true, "elemptr": true, "step": true, "panics": true, "allow-global-write": true, "traced": true,
 }
 
 // logical lines: keyword + rest (continuations joined)
@@ -371,6 +372,15 @@ func (cs *Contracts) LoadFile(path, pkgPath string) error {
 				return fail(l, "step outside loop")
 			}
 			curLoop.Steps = append(curLoop.Steps, c)
+		case "traced":
+			if cur == nil {
+				return fail(l, "traced outside function")
+			}
+			n, err := strconv.Atoi(strings.TrimSpace(l.rest))
+			if err != nil || n <= 0 {
+				return fail(l, "traced needs a positive id")
+			}
+			cur.Traced = n
 		case "panics":
 			c, err := parseLabeled(l.rest)
 			if err != nil {
